@@ -480,8 +480,25 @@ def t_parse_observation(tree):
     fn = find_func(tree, "_parse_observation", "TriangleDecoder")
     self_, obj = params(fn)
     b = body_of(fn)
+    # keyword dictionaries hoisted into locals:  name = {"kw": <expr>, ...}  between the values comprehension and the
+    # `if`, used ONLY as `**name` in the constructor calls.  `C(a=x, **name)` passes the same keyword arguments; the
+    # dictionary is evaluated where it is assigned, i.e. BEFORE the call's own keywords, which fixes the parse order.
+    hoisted = {}
+    while (len(b) > 3 and isinstance(b[1], ast.Assign) and len(b[1].targets) == 1 and isinstance(b[1].targets[0], ast.Name)
+           and isinstance(b[1].value, ast.Dict) and all(isinstance(k, ast.Constant) and isinstance(k.value, str) for k in b[1].value.keys)):
+        name = b[1].targets[0].id
+        if name in hoisted:
+            fail("_parse_observation", b[1], "keyword dictionary assigned twice")
+        hoisted[name] = [ast.keyword(arg=k.value, value=v) for k, v in zip(b[1].value.keys, b[1].value.values)]
+        b = [b[0]] + b[2:]
     if len(b) != 3 or not isinstance(b[0], ast.Assign) or not isinstance(b[1], ast.If) or not isinstance(b[2], ast.Return):
         fail("_parse_observation", fn, "expected values = {...}; if ...: cell = A(...) else: cell = B(...); return cell")
+    for hname in hoisted:          # the local must not be read, changed or passed on anywhere else
+        uses = [n for n in ast.walk(fn) if isinstance(n, ast.Name) and n.id == hname]
+        splats = [kw.value for n in ast.walk(fn) if isinstance(n, ast.Call) for kw in n.keywords if kw.arg is None]
+        if sum(1 for u in uses if isinstance(u.ctx, ast.Store)) != 1 or any(
+                isinstance(u.ctx, ast.Load) and not any(u is sp for sp in splats) for u in uses):
+            fail("_parse_observation", fn, f"keyword dictionary {hname} is used other than as **{hname}")
     vname = b[0].targets[0].id if isinstance(b[0].targets[0], ast.Name) else None
     dc = b[0].value
     tgt, it, ifs = comp1(dc, "_parse_observation", ast.DictComp)
@@ -509,7 +526,22 @@ def t_parse_observation(tree):
         if not isinstance(c.func, ast.Name) or c.func.id not in KIND:
             fail("_parse_observation", c, "unknown cell class")
         table, has_values = [], False
+        # effective keywords in EVALUATION order: hoisted dictionaries (built before the call, in assignment order)
+        # first, then the call's own keywords; an inline **{...} literal keeps its position
+        early, own = [], []
         for kw in c.keywords:
+            if kw.arg is not None:
+                own.append(kw)
+            elif isinstance(kw.value, ast.Name) and kw.value.id in hoisted:
+                early.append(kw.value.id)
+            elif isinstance(kw.value, ast.Dict) and all(isinstance(k, ast.Constant) and isinstance(k.value, str) for k in kw.value.keys):
+                own += [ast.keyword(arg=k.value, value=v) for k, v in zip(kw.value.keys, kw.value.values)]
+            else:
+                fail("_parse_observation", c, "** of something that is not a local keyword dictionary")
+        keywords = [k for h in hoisted if h in early for k in hoisted[h]] + own
+        if len({k.arg for k in keywords}) != len(keywords) or len(set(early)) != len(early):
+            fail("_parse_observation", c, "a keyword is passed twice")
+        for kw in keywords:
             if kw.arg == "values":
                 if not is_name(kw.value, vname):
                     fail("_parse_observation", kw.value, "values=<the converted dict> expected")
